@@ -532,6 +532,14 @@ func branchHandles(info *types.Info, ft *ast.FuncType, body *ast.BlockStmt, obj 
 						}
 					}
 				}
+				if !good && !hasErrResult(info, ft) {
+					// a function without an error result reports the failure as (..., false)
+					for _, res := range x.Results {
+						if tv, has := info.Types[res]; has && tv.Value != nil && tv.Value.String() == "false" {
+							good = true
+						}
+					}
+				}
 				if !good {
 					for _, prev := range list[:i] {
 						if passesOn(info, prev, obj) {
@@ -658,4 +666,16 @@ func enclosingList(p *prog.Prog, st ast.Node) (token.Pos, token.Pos) {
 		}
 	}
 	return token.NoPos, token.NoPos
+}
+
+func hasErrResult(info *types.Info, ft *ast.FuncType) bool {
+	if ft == nil || ft.Results == nil {
+		return false
+	}
+	for _, f := range ft.Results.List {
+		if tv, ok := info.Types[f.Type]; ok && isErrorType(tv.Type) {
+			return true
+		}
+	}
+	return false
 }
